@@ -286,6 +286,31 @@ def dominated(repo, key, ws):
                 continue            # alias definition
             is_store = isinstance(top, ast.Subscript) and isinstance(top.ctx, ast.Store)
             if is_store:
+                # the store must execute whenever the later reads do: not nested in a
+                # conditional / loop that the later uses are outside of
+                stmt = top
+                while stmt is not None and not isinstance(stmt, ast.stmt):
+                    stmt = parents.get(stmt)
+                blk = parents.get(stmt)
+                later = [x for x in uses if (x.lineno, x.col_offset) > (u.lineno, u.col_offset)]
+                if isinstance(blk, (ast.If, ast.For, ast.While, ast.Try)):
+                    inside = {id(x) for x in ast.walk(blk)}
+                    # alias definition / membership guard of the enclosing branch are fine; a later
+                    # use outside the conditional block is not dominated
+                    if isinstance(blk, ast.If) and stmt in blk.body and blk.orelse == [] \
+                            and any(id(x) not in inside for x in later):
+                        return False
+                    if not isinstance(blk, ast.If) and any(id(x) not in inside for x in later):
+                        return False
+                    # conditional store followed by reads inside the same block only: check that the
+                    # enclosing `if` is the function's own dispatch (its test does not mention the
+                    # stored value)
+                    if isinstance(blk, ast.If) and stmt in blk.body:
+                        t = ast.unparse(blk.test)
+                        v = ast.unparse(parents.get(top).value) if isinstance(parents.get(top),
+                                                                             ast.Assign) else ""
+                        if v and v in t.split():
+                            return False
                 break
             # a membership test of the container does not read what an earlier call stored
             if isinstance(p, ast.Compare) and top in p.comparators \
